@@ -40,6 +40,7 @@ def model_specs(
     allow_alt_dt=False,
     cse=None,
     innovation=("none", "k"),
+    allow_positive=True,
 ):
     ns = draw(st.integers(*n_state))
     nc = draw(st.integers(*n_control))
@@ -54,7 +55,7 @@ def model_specs(
     dtname = "dt"
     if allow_alt_dt and names != "ident" and draw(st.integers(0, 9)) == 0:
         dtname = "delta_t" if "delta_t" not in namelist else "dt"
-    positive = [n for n in namelist if draw(st.integers(0, 3)) == 0]
+    positive = [n for n in namelist if draw(st.integers(0, 3)) == 0] if allow_positive else []
     syms = state + control + calib + [dtname]
 
     use_pool = draw(st.booleans()) if pool is None else pool
@@ -73,6 +74,10 @@ def model_specs(
             j = draw(st.sampled_from(state))
             a = draw(st.sampled_from([0, 0, 5, 1]))  # CONSTS idx: 1, 1, 0.5, 2 -> see T.CONSTS
             e = draw(T.exprs(syms[:-1], positive, depth=max(1, depth - 1), pool=pooltrees))
+            if euler == "bounded":
+                # |x'| <= |x| + |dt|: trajectories grow at most linearly however many steps are taken
+                a = draw(st.sampled_from([0, 0, 5]))
+                e = [draw(st.sampled_from(["tanh", "sin", "cos"])), e]
             trees[s] = ["add", ["mul", ["const", a], ["sym", j if draw(st.booleans()) else s]],
                         ["mul", ["sym", dtname], e]]
         else:
